@@ -18,6 +18,7 @@
       with 'R'; length = the digit after 'R' (0 if none), else the number of digit pairs; data =
       the bytes the pairs denote ([hex_bytes]) zero-padded to 8, all zero for a remote frame.
     [frame_wf f] = the fields are representable in the Go struct (uint32, uint8, [8]byte). *)
+From Coq Require Import String.
 From Coq Require Import ZArith List Bool.
 From CanVerif Require Import Base.Dec Base.Hex Can.Data Can.Frame Can.FrameProofs
   Can.FrameString Can.FrameStringSpec Can.FrameStringProofs Can.FrameJSONSpec.
